@@ -84,6 +84,11 @@ CLAIMS = {
                   'schema not run and the destination untouched; the source depends only on method and media type), emits every row, and recomputes the expected observation of every real request the harness builds and parses.',
              technique='TLC-checked decision table + exhaustive replay of its rows as real http.Requests, validated by TLC', ref='5 C15, 3.8',
              note='Trusted: request construction and the observation (sentinels per source, recording test, pre-filled destination).'),
+ 'C14': dict(text='The harness renders one generated record through six front ends (Go map, zjson, zhttp JSON body, url-encoded form, query string, environment) with random struct tags; TLC validates every view lock-step against '
+                  'the traversal machine and against the reference for that record (key = source tag > zog tag > schema key at every depth; flat sources resolve nested structs against the same source; string leaves; env trimming) and '
+                  'compares the views of one record with each other (same destination, same issues up to the key names). Known findings D17/D18/D24 are attributed by re-validating against the named specification variants.',
+             technique='TLC trace validation of one record rendered through every front end (Trace_Exec, fe-aware KeyOf/ChildIn) + TLC model checking of ZogExec', ref='5 C14, 3.4',
+             note='Multipart forms and custom zhttp Config.Parsers are not covered. Lists are not rendered for the environment; slices of structs are not expressible in flat sources and are not generated there.'),
 }
 NA_REASON = 'check not built yet (work in progress; DESIGN.md section 11 gives the build order)'
 checks = []
